@@ -1,4 +1,4 @@
-\* vacuity guard: the model WITHOUT the D12 fix must violate LookupInv
+\* C03: full imports + SetHead, 4 blocks, one transaction that may sit on two branches
 SPECIFICATION Spec
 CONSTANTS
   BSeq <- B4
@@ -7,9 +7,9 @@ CONSTANTS
   Mode = "full"
   AllowSetHead = TRUE
   FixAbove = TRUE
-  FixLookup = FALSE
+  FixLookup = TRUE
   FixOrphan = TRUE
-  PrunedRewind = FALSE
+  PrunedRewind = TRUE
   FixDisplaced = TRUE
   KeepDescendants = TRUE
 INVARIANTS TypeOK HeadHeaviestInv TdAdditiveInv CanonIsAncestryInv NothingAboveHeadInv RetrievableInv LookupInv
